@@ -32,11 +32,38 @@ CONSTANTS
   ExpireInclusive, \* TRUE: the rotation lock is gone when now >= set + Half (fakeredis); FALSE: now > set + Half (Redis)
   Defect,          \* "none" = the code as it is; a name re-introduces a defect (negative configs)
   AllowBadConfig,  \* TRUE drops the interface obligation (negative config with K = 0)
-  Emit             \* TRUE: keep the history and print it when it reaches MaxOps steps
+  Emit,            \* TRUE: keep the history and print it when it reaches MaxOps steps
+  \* ---- round 2
+  Faults,          \* reply classes of a script call explored besides "ok": subset of {"errreply", "lostbefore", "lostafter"}
+  QS,              \* sequence of key sequences, each queried as ONE batch after every step of an emitted history
+  Ops,             \* the operations enabled (directed generation runs restrict them; AllOps otherwise)
+  Big              \* TRUE: batches of 10^4 keys -- the abstract per-key rule replaces the recursive loop transcriptions
 
 \* Obligation(k, size) == k >= 1 /\ size >= 1 is defined in BloomIface
 ASSUME AllowBadConfig \/ Obligation(K, Size)
 ASSUME Kind \in {"bloom", "counting", "sliding"}
+AllOps == {"AddMulti", "ExistsMulti", "RemoveMulti", "Reset", "Delete", "Tick", "NewHandle"}
+AllFaults == {"errreply", "lostbefore", "lostafter"}
+NoFaults == {}
+ASSUME Faults \subseteq AllFaults /\ Ops \subseteq AllOps /\ Big \in BOOLEAN
+
+(***************************************************************************)
+(* Reply classes of one script call (EVALSHA/EVAL of the add, remove and   *)
+(* sliding exists scripts):                                                *)
+(*   ok         executed, reply delivered: the method returns nil          *)
+(*   errreply   the server refuses the call with an error reply (-OOM,     *)
+(*              -READONLY, -MISCONF ...): nothing executed, the method     *)
+(*              returns that error                                         *)
+(*   lostbefore connection lost before execution: nothing executed, error  *)
+(*   lostafter  executed, reply lost: state changed, the method returns an *)
+(*              error (the caller may not assume anything)                 *)
+(* What the caller is told is `err`; the obligations of C35/C36/C37 arise  *)
+(* from calls that returned nil, whatever happened on the wire.            *)
+(***************************************************************************)
+Classes == {"ok"} \cup Faults
+Executed(cls) == cls \in {"ok", "lostafter"}
+CallErr(cls) == cls # "ok"
+AddErr(cls) == IF Defect = "add-swallows-error-reply" /\ cls = "errreply" THEN FALSE ELSE CallErr(cls)
 
 Idx == 0 .. (Size - 1)
 AllHashes == [Items -> [1..K -> Idx]]
@@ -61,10 +88,16 @@ VARIABLES
 
 vars == <<H, bits, nbits, cnt, count, ncount, now, lockUntil, nmiss, added, net, legit, lastAdd, last, hist>>
 
-NoOp == [op |-> "Init", keys |-> <<>>, ans |-> <<>>, removed |-> <<>>, err |-> FALSE]
+NoOp == [op |-> "Init", keys |-> <<>>, ans |-> <<>>, removed |-> <<>>, err |-> FALSE, cls |-> "ok"]
 
-RECURSIVE Flat(_)
-Flat(ks) == IF ks = <<>> THEN <<>> ELSE H[Head(ks)] \o Flat(Tail(ks))
+\* indexes(keys): K indexes per input key, in input order, repeated keys included
+\* (Defect "dedup-batch": a key repeated within one batch is hashed only once)
+RECURSIVE FlatFrom(_, _)
+FlatFrom(ks, seen) ==
+  IF ks = <<>> THEN <<>>
+  ELSE IF Defect = "dedup-batch" /\ Head(ks) \in seen THEN FlatFrom(Tail(ks), seen)
+  ELSE H[Head(ks)] \o FlatFrom(Tail(ks), seen \cup {Head(ks)})
+Flat(ks) == FlatFrom(ks, {})
 
 SeqSet(s) == {s[i] : i \in DOMAIN s}
 B2N(b) == IF b THEN 1 ELSE 0
@@ -98,7 +131,15 @@ ExLoop(fl, i, b, one, res) ==
           ELSE ExLoop(fl, i + 1, b, one2, res)
 
 GoAnswers(ks, arr) == [i \in 1..Len(ks) |-> IF i <= Len(arr) THEN arr[i] ELSE FALSE]
-BitAnswers(ks, b) == GoAnswers(ks, ExLoop(Flat(ks), 1, b, 0, <<>>))
+\* the code sends ALL indexes of a batch in ONE script call.  Defect "chunk-flat": the flat index list is cut into
+\* calls of ChunkLen indexes regardless of key boundaries, the answers of the calls are concatenated
+ChunkLen == K + 1
+RECURSIVE ChunkAnswers(_, _)
+ChunkAnswers(fl, b) ==
+  IF Len(fl) <= ChunkLen THEN ExLoop(fl, 1, b, 0, <<>>)
+  ELSE ExLoop(SubSeq(fl, 1, ChunkLen), 1, b, 0, <<>>) \o ChunkAnswers(SubSeq(fl, ChunkLen + 1, Len(fl)), b)
+BitAnswers(ks, b) ==
+  GoAnswers(ks, IF Defect = "chunk-flat" THEN ChunkAnswers(Flat(ks), b) ELSE ExLoop(Flat(ks), 1, b, 0, <<>>))
 
 (***************************************************************************)
 (* counting filter                                                         *)
@@ -107,7 +148,12 @@ Mult(x, i) == Cardinality({j \in 1..K : H[x][j] = i})
 IdxOf(x) == {H[x][j] : j \in 1..K}
 RECURSIVE Bump(_, _, _, _)   \* HINCRBY d on each of the K indexes of x (EXCEPT: Size may be large in generation runs)
 Bump(c, x, j, d) == IF j > K THEN c ELSE Bump([c EXCEPT ![H[x][j]] = @ + d], x, j + 1, d)
-PlusItem(c, x)  == Bump(c, x, 1, 1)
+\* Defect "add-once-per-slot": the add skips an index an earlier hash iteration of the same key already hit
+RECURSIVE BumpOnce(_, _, _)
+BumpOnce(c, x, j) ==
+  IF j > K THEN c
+  ELSE BumpOnce(IF \E jj \in 1..(j-1) : H[x][jj] = H[x][j] THEN c ELSE [c EXCEPT ![H[x][j]] = @ + 1], x, j + 1)
+PlusItem(c, x)  == IF Defect = "add-once-per-slot" THEN BumpOnce(c, x, 1) ELSE Bump(c, x, 1, 1)
 MinusItem(c, x) == Bump(c, x, 1, -1)
 
 RECURSIVE PlusSeq(_, _)
@@ -142,7 +188,10 @@ Inc(lc, x, j, upto) == IF j > upto THEN lc ELSE Inc([lc EXCEPT ![H[x][j]] = @ + 
 RemoveItem(lc, x) ==
   LET d == Dec(lc, x, 1)
   IN IF d.fail = 0 THEN [lc |-> d.lc, ok |-> TRUE]
-     ELSE [lc |-> IF Defect = "remove-no-rollback" THEN d.lc ELSE Inc(d.lc, x, 1, d.fail), ok |-> FALSE]
+     ELSE [lc |-> CASE Defect = "remove-no-rollback"  -> d.lc
+                    [] Defect = "remove-rollback-all" -> Inc(d.lc, x, 1, K)      \* also the counters never decremented
+                    [] OTHER                          -> Inc(d.lc, x, 1, d.fail),
+           ok |-> FALSE]
 
 \* the loop over the items of one call: local table, per-item verdicts
 RECURSIVE RemoveLoop(_, _, _)
@@ -199,8 +248,11 @@ PresentNow(x) ==
     [] OTHER -> K >= 1 /\ \A j \in 1..K : H[x][j] \in CurNow
 
 \* what ExistsMulti(ks) / ItemMinCountMulti(ks) answer in this state (script loop, then the Go loop)
+\* Big: one level of recursion per index is too deep for batches of 10^4 keys; AnswersPerKey (checked for all hash
+\* functions of the tiny sizes) says the loops compute exactly the per-key rule, which is evaluated instead
 ExistsAnswers(ks) ==
-  IF Kind = "counting" THEN CExLoop(Flat(ks), 1, TRUE, <<>>) ELSE BitAnswers(ks, CurNow)
+  IF Big THEN [i \in 1..Len(ks) |-> PresentNow(ks[i])]
+  ELSE IF Kind = "counting" THEN CExLoop(Flat(ks), 1, TRUE, <<>>) ELSE BitAnswers(ks, CurNow)
 MinAnswers(ks) == MinLoop(Flat(ks), 1, -1, <<>>)
 
 MinCount(x) == IF K = 0 THEN 0 ELSE
@@ -212,8 +264,12 @@ Must(x) ==
     [] Kind = "sliding"  -> lastAdd[x] >= 0 /\ now <= lastAdd[x] + Half
 
 Snapshot ==
-  [op |-> last.op, keys |-> last.keys, ans |-> last.ans, removed |-> last.removed, err |-> last.err,
+  [op |-> last.op, keys |-> last.keys, ans |-> last.ans, removed |-> last.removed, err |-> last.err, cls |-> last.cls,
    now |-> now, count |-> count,
+   qsans  |-> IF Kind = "sliding" THEN <<>> ELSE [i \in 1..Len(QS) |-> ExistsAnswers(QS[i])],
+   qsmins |-> IF Kind = "counting" THEN [i \in 1..Len(QS) |-> MinAnswers(QS[i])] ELSE <<>>,
+   qsmust |-> [i \in 1..Len(QS) |-> [p \in 1..Len(QS[i]) |-> Must(QS[i][p])]],
+   qsnet  |-> [i \in 1..Len(QS) |-> [p \in 1..Len(QS[i]) |-> IF Kind = "counting" /\ legit THEN net[QS[i][p]] ELSE 0]],
    present |-> [i \in 1..Len(Q) |-> IF Kind = "sliding" THEN FALSE ELSE ExistsAnswers(<<Q[i]>>)[1]],
    mincnt  |-> [i \in 1..Len(Q) |-> IF Kind = "counting" THEN MinAnswers(<<Q[i]>>)[1] ELSE 0],
    qans    |-> IF Kind = "sliding" THEN <<>> ELSE ExistsAnswers(Q),
@@ -240,19 +296,25 @@ Init ==
 (***************************************************************************)
 (* bloom                                                                   *)
 (***************************************************************************)
-BAddMulti(ks) ==
-  /\ Kind = "bloom" /\ CanStep
-  /\ LET r == AddLoop(Flat(ks), 1, bits, 0, 0) IN
-       /\ bits' = r.b
-       /\ count' = (IF Defect = "count-set-not-incr" THEN r.c ELSE count + r.c)
-  /\ added' = added \cup SeqSet(ks)
-  /\ last' = [NoOp EXCEPT !.op = "AddMulti", !.keys = ks]
+\* the state the add script leaves (Big: the bits of all keys; the item counter is not predicted, -1)
+BAdded(ks) ==
+  IF Big THEN [b |-> bits \cup UNION {IdxOf(ks[i]) : i \in 1..Len(ks)}, c |-> -1]
+  ELSE LET r == AddLoop(Flat(ks), 1, bits, 0, 0)
+       IN [b |-> r.b, c |-> IF Defect = "count-set-not-incr" THEN r.c ELSE count + r.c]
+
+BAddMulti(ks, cls) ==
+  /\ Kind = "bloom" /\ CanStep /\ "AddMulti" \in Ops
+  /\ IF Executed(cls)
+     THEN LET r == BAdded(ks) IN bits' = r.b /\ count' = r.c
+     ELSE UNCHANGED <<bits, count>>
+  /\ added' = (IF AddErr(cls) THEN added ELSE added \cup SeqSet(ks))     \* obligations arise from calls that returned nil
+  /\ last' = [NoOp EXCEPT !.op = "AddMulti", !.keys = ks, !.err = AddErr(cls), !.cls = cls]
   /\ UNCHANGED <<H, nbits, cnt, ncount, now, lockUntil, nmiss, net, legit, lastAdd>>
   /\ Record
 
 \* Reset: SET filter "" / SET counter 0;  Delete: DEL both.  Same abstract state.
 BClear(op) ==
-  /\ Kind = "bloom" /\ CanStep
+  /\ Kind = "bloom" /\ CanStep /\ op \in Ops
   /\ bits' = {} /\ count' = 0 /\ added' = {}
   /\ last' = [NoOp EXCEPT !.op = op]
   /\ UNCHANGED <<H, nbits, cnt, ncount, now, lockUntil, nmiss, net, legit, lastAdd>>
@@ -261,29 +323,35 @@ BClear(op) ==
 (***************************************************************************)
 (* counting                                                                *)
 (***************************************************************************)
-CAddMulti(ks) ==
-  /\ Kind = "counting" /\ CanStep
+CAddMulti(ks, cls) ==
+  /\ Kind = "counting" /\ CanStep /\ "AddMulti" \in Ops
   /\ count + Len(ks) <= MaxTotal
-  /\ cnt' = PlusSeq(cnt, ks)
-  /\ count' = count + Len(ks)
-  /\ net' = (IF legit THEN NetPlus(net, ks) ELSE net)
-  /\ last' = [NoOp EXCEPT !.op = "AddMulti", !.keys = ks]
+  /\ IF Executed(cls)
+     THEN cnt' = PlusSeq(cnt, ks) /\ count' = count + Len(ks)
+     ELSE UNCHANGED <<cnt, count>>
+  /\ net' = (IF legit /\ ~AddErr(cls) THEN NetPlus(net, ks) ELSE net)
+  /\ last' = [NoOp EXCEPT !.op = "AddMulti", !.keys = ks, !.err = AddErr(cls), !.cls = cls]
   /\ UNCHANGED <<H, bits, nbits, ncount, now, lockUntil, nmiss, added, legit, lastAdd>>
   /\ Record
 
-CRemoveMulti(ks) ==
-  /\ Kind = "counting" /\ CanStep
-  /\ LET oks == RemoveLoop(cnt, ks, <<>>)
-         na  == NetAfter(net, legit, ks, oks) IN
-       /\ cnt' = ApplyRemoved(cnt, ks, oks, 1)
-       /\ count' = count - NumTrue(oks)
-       /\ net' = na[1] /\ legit' = na[2]
-       /\ last' = [NoOp EXCEPT !.op = "RemoveMulti", !.keys = ks, !.removed = oks]
+\* a removal that was executed counts as a removal even when its reply was lost (fewer obligations, never more)
+CRemoveMulti(ks, cls) ==
+  /\ Kind = "counting" /\ CanStep /\ "RemoveMulti" \in Ops
+  /\ IF Executed(cls)
+     THEN LET oks == RemoveLoop(cnt, ks, <<>>)
+              na  == NetAfter(net, legit, ks, oks) IN
+            /\ cnt' = ApplyRemoved(cnt, ks, oks, 1)
+            /\ count' = count - NumTrue(oks)
+            /\ net' = na[1] /\ legit' = na[2]
+            /\ last' = [NoOp EXCEPT !.op = "RemoveMulti", !.keys = ks, !.removed = oks, !.err = CallErr(cls), !.cls = cls]
+     ELSE /\ UNCHANGED <<cnt, count, net, legit>>
+          /\ last' = [NoOp EXCEPT !.op = "RemoveMulti", !.keys = ks, !.removed = [i \in 1..Len(ks) |-> FALSE],
+                                  !.err = TRUE, !.cls = cls]
   /\ UNCHANGED <<H, bits, nbits, ncount, now, lockUntil, nmiss, added, lastAdd>>
   /\ Record
 
 CDelete ==
-  /\ Kind = "counting" /\ CanStep
+  /\ Kind = "counting" /\ CanStep /\ "Delete" \in Ops
   /\ cnt' = [i \in Idx |-> 0] /\ count' = 0
   /\ net' = [x \in Items |-> 0] /\ legit' = TRUE
   /\ last' = [NoOp EXCEPT !.op = "Delete"]
@@ -301,38 +369,48 @@ Rot ==
          [] Defect = "rotate-clears-current" -> [ok |-> TRUE, b |-> {}, nb |-> nbits, c |-> 0, nc |-> ncount, lu |-> now + Half]
          [] OTHER                            -> [ok |-> TRUE, b |-> nbits, nb |-> {}, c |-> ncount, nc |-> 0, lu |-> now + Half]
 
-SAddMulti(ks) ==
-  /\ Kind = "sliding" /\ CanStep
-  /\ LET r == Rot IN
-     IF ~r.ok
-     THEN /\ lockUntil' = r.lu
-          /\ last' = [NoOp EXCEPT !.op = "AddMulti", !.keys = ks, !.err = TRUE]
-          /\ UNCHANGED <<bits, nbits, count, ncount, nmiss, lastAdd>>
-     ELSE LET a == AddLoop(Flat(ks), 1, r.b, 0, 0) IN
-          /\ bits' = a.b
-          /\ nbits' = r.nb \cup SeqSet(Flat(ks))
-          /\ count' = r.c + a.c /\ ncount' = r.nc + a.c
-          /\ lockUntil' = r.lu /\ nmiss' = FALSE
-          /\ lastAdd' = [x \in Items |-> IF x \in SeqSet(ks) THEN now ELSE lastAdd[x]]
-          /\ last' = [NoOp EXCEPT !.op = "AddMulti", !.keys = ks]
+SAddMulti(ks, cls) ==
+  /\ Kind = "sliding" /\ CanStep /\ "AddMulti" \in Ops
+  /\ IF ~Executed(cls)
+     THEN /\ last' = [NoOp EXCEPT !.op = "AddMulti", !.keys = ks, !.err = AddErr(cls), !.cls = cls]
+          /\ lastAdd' = [x \in Items |-> IF x \in SeqSet(ks) /\ ~AddErr(cls) THEN now ELSE lastAdd[x]]
+          /\ UNCHANGED <<bits, nbits, count, ncount, nmiss, lockUntil>>
+     ELSE LET r == Rot IN
+       IF ~r.ok
+       THEN /\ lockUntil' = r.lu
+            /\ last' = [NoOp EXCEPT !.op = "AddMulti", !.keys = ks, !.err = TRUE, !.cls = cls]
+            /\ UNCHANGED <<bits, nbits, count, ncount, nmiss, lastAdd>>
+       ELSE LET a == AddLoop(Flat(ks), 1, r.b, 0, 0) IN
+            /\ bits' = a.b
+            /\ nbits' = r.nb \cup SeqSet(Flat(ks))
+            /\ count' = r.c + a.c /\ ncount' = r.nc + a.c
+            /\ lockUntil' = r.lu /\ nmiss' = FALSE
+            /\ lastAdd' = [x \in Items |-> IF x \in SeqSet(ks) /\ ~AddErr(cls) THEN now ELSE lastAdd[x]]
+            /\ last' = [NoOp EXCEPT !.op = "AddMulti", !.keys = ks, !.err = AddErr(cls), !.cls = cls]
   /\ UNCHANGED <<H, cnt, now, added, net, legit>>
   /\ Record
 
-SExistsMulti(ks) ==
-  /\ Kind = "sliding" /\ CanStep
-  /\ LET r == Rot IN
-     IF ~r.ok
-     THEN /\ lockUntil' = r.lu
-          /\ last' = [NoOp EXCEPT !.op = "ExistsMulti", !.keys = ks, !.err = TRUE]
-          /\ UNCHANGED <<bits, nbits, count, ncount>>
-     ELSE /\ bits' = r.b /\ nbits' = r.nb /\ count' = r.c /\ ncount' = r.nc /\ lockUntil' = r.lu
-          /\ last' = [NoOp EXCEPT !.op = "ExistsMulti", !.keys = ks, !.ans = BitAnswers(ks, r.b)]
+\* Defect "ro-reads-next": the exists script looks at the next generation instead of the current one
+SExistsMulti(ks, cls) ==
+  /\ Kind = "sliding" /\ CanStep /\ "ExistsMulti" \in Ops
+  /\ IF ~Executed(cls)
+     THEN /\ last' = [NoOp EXCEPT !.op = "ExistsMulti", !.keys = ks, !.err = TRUE, !.cls = cls]
+          /\ UNCHANGED <<bits, nbits, count, ncount, lockUntil>>
+     ELSE LET r == Rot IN
+       IF ~r.ok
+       THEN /\ lockUntil' = r.lu
+            /\ last' = [NoOp EXCEPT !.op = "ExistsMulti", !.keys = ks, !.err = TRUE, !.cls = cls]
+            /\ UNCHANGED <<bits, nbits, count, ncount>>
+       ELSE /\ bits' = r.b /\ nbits' = r.nb /\ count' = r.c /\ ncount' = r.nc /\ lockUntil' = r.lu
+            /\ last' = [NoOp EXCEPT !.op = "ExistsMulti", !.keys = ks, !.err = CallErr(cls), !.cls = cls,
+                                    !.ans = IF CallErr(cls) THEN <<>>
+                                            ELSE BitAnswers(ks, IF Defect = "ro-reads-next" THEN r.nb ELSE r.b)]
   /\ UNCHANGED <<H, cnt, now, nmiss, added, net, legit, lastAdd>>
   /\ Record
 
 \* slidingBloomFilterResetScript: rotate without touching the lock
 SReset ==
-  /\ Kind = "sliding" /\ CanStep
+  /\ Kind = "sliding" /\ CanStep /\ "Reset" \in Ops
   /\ IF nmiss
      THEN /\ last' = [NoOp EXCEPT !.op = "Reset", !.err = TRUE]
           /\ UNCHANGED <<bits, nbits, count, ncount, lastAdd>>
@@ -344,15 +422,36 @@ SReset ==
 
 \* DEL of all five keys
 SDelete ==
-  /\ Kind = "sliding" /\ CanStep
+  /\ Kind = "sliding" /\ CanStep /\ "Delete" \in Ops
   /\ bits' = {} /\ nbits' = {} /\ count' = 0 /\ ncount' = 0 /\ lockUntil' = -1 /\ nmiss' = TRUE
   /\ lastAdd' = [x \in Items |-> -1]
   /\ last' = [NoOp EXCEPT !.op = "Delete"]
   /\ UNCHANGED <<H, cnt, now, added, net, legit>>
   /\ Record
 
+(***************************************************************************)
+(* NewSlidingBloomFilter on the name of an existing filter (a second       *)
+(* process, a restart): slidingBloomFilterInitializeScript.  It creates    *)
+(* the two generations, the two counters (MSET) and the lock (SET PX NX)   *)
+(* only when NONE of the five keys exists.  The lock key expires by itself *)
+(* every half window, so "some key is missing" is the normal state of an   *)
+(* idle filter and must not re-initialise it (Defect "init-any-missing").  *)
+(* The obligations (lastAdd) are untouched: constructing a handle is       *)
+(* neither a Reset nor a Delete.                                           *)
+(***************************************************************************)
+SNewHandle ==
+  /\ Kind = "sliding" /\ CanStep /\ "NewHandle" \in Ops
+  /\ LET init == IF Defect = "init-any-missing" THEN nmiss \/ Expired ELSE nmiss /\ Expired IN
+     IF init
+     THEN /\ bits' = {} /\ nbits' = {} /\ count' = 0 /\ ncount' = 0 /\ nmiss' = FALSE
+          /\ lockUntil' = (IF Expired THEN now + Half ELSE lockUntil)
+     ELSE UNCHANGED <<bits, nbits, count, ncount, nmiss, lockUntil>>
+  /\ last' = [NoOp EXCEPT !.op = "NewHandle"]
+  /\ UNCHANGED <<H, cnt, now, added, net, legit, lastAdd>>
+  /\ Record
+
 Tick ==
-  /\ Kind = "sliding" /\ CanStep
+  /\ Kind = "sliding" /\ CanStep /\ "Tick" \in Ops
   /\ now < MaxNow
   /\ now' = now + 1
   /\ lastAdd' = [x \in Items |-> IF lastAdd[x] >= 0 /\ now + 1 > lastAdd[x] + Half THEN -1 ELSE lastAdd[x]]
@@ -368,12 +467,12 @@ Tick ==
 (* sliding filter may rotate and is an action.                             *)
 (***************************************************************************)
 Next ==
-  \/ \E ks \in KeySeqs : BAddMulti(ks)
+  \/ \E ks \in KeySeqs, cls \in Classes : BAddMulti(ks, cls)
   \/ BClear("Reset") \/ BClear("Delete")
-  \/ \E ks \in KeySeqs : CAddMulti(ks) \/ CRemoveMulti(ks)
+  \/ \E ks \in KeySeqs, cls \in Classes : CAddMulti(ks, cls) \/ CRemoveMulti(ks, cls)
   \/ CDelete
-  \/ \E ks \in KeySeqs : SAddMulti(ks) \/ SExistsMulti(ks)
-  \/ SReset \/ SDelete \/ Tick
+  \/ \E ks \in KeySeqs, cls \in Classes : SAddMulti(ks, cls) \/ SExistsMulti(ks, cls)
+  \/ SReset \/ SDelete \/ SNewHandle \/ Tick
 
 Spec == Init /\ [][Next]_vars
 
@@ -405,6 +504,11 @@ SlidingAnswers ==
   [][\A ks \in KeySeqs : (last'.op = "ExistsMulti" /\ last'.keys = ks /\ ~last'.err) =>
        /\ last'.ans = [i \in 1..Len(ks) |-> PresentNow(ks[i])']
        /\ \A i \in 1..Len(ks) : Must(ks[i])' => last'.ans[i]]_vars
+\* C35/C36/C37, for every reply class of the script call: an Add/AddMulti that returned nil has added its items
+\* (Exists answers present right afterwards); a call answered with an error (reply or transport) creates no obligation
+AddNilMeansPresent ==
+  [][\A ks \in KeySeqs : (last'.op = "AddMulti" /\ last'.keys = ks /\ ~last'.err) =>
+       \A i \in 1..Len(ks) : PresentNow(ks[i])']_vars
 \* C35: Count never decreases except through Reset or Delete
 CountMonotone == [][(Kind = "bloom" /\ last'.op \notin {"Reset", "Delete"}) => count' >= count]_vars
 
@@ -414,10 +518,12 @@ MinCountAtLeastNet == Kind = "counting" => \A x \in Items : legit => MinCount(x)
 PresentWhileNetPositive == Kind = "counting" => \A x \in Items : Must(x) => PresentNow(x)
 FailedRemoveChangesNothing ==
   [][last'.op = "RemoveMulti" =>
-       LET a == AbsRemove(cnt, last'.keys, <<>>) IN
-         /\ last'.removed = a.oks
-         /\ cnt' = a.c
-         /\ count' = count - NumTrue(a.oks)]_vars
+       IF Executed(last'.cls)
+       THEN LET a == AbsRemove(cnt, last'.keys, <<>>) IN
+              /\ last'.removed = a.oks
+              /\ cnt' = a.c
+              /\ count' = count - NumTrue(a.oks)
+       ELSE cnt' = cnt /\ count' = count]_vars
 
 \* C37
 PresentForHalfWindow == Kind = "sliding" => \A x \in Items : Must(x) => PresentNow(x)
